@@ -108,6 +108,7 @@ class Recorder:
     def reset_log(self):
         self.delivered, self.pushed, self.order, self.msgs = [], [], [], []
         self._decoded = []
+        self.conn_errors = []
         self.by_stream, self.by_addr = {}, {}
 
     def load(self, frames):
@@ -130,6 +131,10 @@ class Recorder:
 
     def _handler(self, stream):
         def cb(response):
+            if isinstance(response, Exception) and not hasattr(response, "opcode"):
+                # not a message: the connection failed the request (error_all_requests) or decoding failed
+                self.conn_errors.append((stream, type(response).__name__))
+                return
             f = self.by_stream.get(stream)
             seen = self._decoded[-1] if self._decoded else None
             ok = (f is not None and seen is not None
